@@ -92,6 +92,9 @@ def do_call(spec, cache):
             return {"ok": canon(to_wire(generate_one(sobj)))}
         if op == "resolve":
             return {"ok": canon(to_wire(schemaless_reader(io.BytesIO(bytes.fromhex(spec["bytes"])), sobj, copy.deepcopy(spec["reader"]))))}
+        if op == "read_container":
+            rs = copy.deepcopy(spec["reader"]) if spec.get("reader") is not None else None
+            return {"ok": [canon(to_wire(x)) for x in fastavro.reader(io.BytesIO(bytes.fromhex(spec["bytes"])), rs)]}
         raise ValueError("unknown op " + op)
     except RecursionError:
         return {"err": "fuel"}
@@ -215,6 +218,68 @@ def table():
     return {pub: (r or {"writes": set(), "pwrites": set()}) for pub, r, allowed in entries}, set(state_objects)
 
 
+def _zz(n):
+    n = (n << 1) ^ (n >> 63)
+    out = bytearray()
+    while n & ~0x7F:
+        out.append((n & 0x7F) | 0x80)
+        n >>= 7
+    out.append(n)
+    return bytes(out)
+
+
+def directed_histories(run, tier, seed, pristine):
+    """histories aimed at state that only particular call orders expose:
+    (a) decimals of many precisions read one after another — including stored integers with more digits than the
+        schema's precision (the reader must round them to the schema's precision whatever was read before);
+    (b) a container file whose header schema only parses leniently (a default of the wrong JSON type), read with a
+        reader schema (lenient) and without one (strict) in both orders."""
+    rr = random.Random(seed * 424243 + 17)
+    for h in range(scale(tier, 12)):
+        calls = []
+        for _ in range(rr.randint(4, 9)):
+            p = rr.choice([1, 2, 4, 5, 9, 18, 20, 28, 29, 38])
+            sc = rr.randint(0, p)
+            ndig = rr.choice([p, p, max(1, p - 1), p + 1, p + 3, p + 9])
+            unscaled = rr.randint(10 ** (ndig - 1), 10 ** ndig - 1) * rr.choice([1, -1])
+            raw = unscaled.to_bytes((unscaled.bit_length() + 8) // 8, "big", signed=True)
+            schema = {"type": "bytes", "logicalType": "decimal", "precision": p, "scale": sc}
+            if rr.random() < 0.4:
+                schema = {"type": "record", "name": "Payment", "namespace": "demo", "fields": [{"name": "amount", "type": schema}]}
+            calls.append({"op": "read", "schema": schema, "bytes": (_zz(len(raw)) + raw).hex()})
+        for c, spec in enumerate(calls):
+            got = do_call(copy.deepcopy(spec), {})
+            fresh = pristine.call(copy.deepcopy(spec))
+            run.cov["evaluations"] += 1
+            run.tag("directed:decimal-precisions")
+            if got != fresh:
+                run.fail({"history": [dict(x) for x in calls[:c + 1]], "after_history": got, "fresh": fresh, "tags": ["decimal-precisions"]},
+                         "the result of a call after a history differs from the same call made first in a fresh interpreter", kind="oracle")
+                break
+    for h in range(scale(tier, 6)):
+        w = {"type": "record", "name": "Old", "fields": [{"name": "a", "type": "int", "default": 10}, {"name": "b", "type": "string", "default": "xy"}]}
+        fo = io.BytesIO()
+        fastavro.writer(fo, w, [{"a": i, "b": "r%d" % i} for i in range(rr.randint(1, 3))], sync_marker=b"0123456789abcdef")
+        raw = fo.getvalue()
+        bad = raw.replace(b'"default": 10', b'"default": ""', 1) if rr.random() < 0.5 else raw.replace(b'"default": "xy"', b'"default": 1234', 1)
+        if bad == raw or len(bad) != len(raw):
+            continue
+        reader = {"type": "record", "name": "Old", "fields": [{"name": "a", "type": "int"}, {"name": "b", "type": "string"}]}
+        specs = [{"op": "read_container", "schema": None, "bytes": bad.hex(), "reader": reader},
+                 {"op": "read_container", "schema": None, "bytes": bad.hex(), "reader": None}]
+        order = specs + specs[::-1] if h % 2 == 0 else specs[::-1] + specs
+        for c, spec in enumerate(order):
+            got = do_call(copy.deepcopy(spec), {})
+            fresh = pristine.call(copy.deepcopy(spec))
+            run.cov["evaluations"] += 1
+            run.tag("directed:lenient-header")
+            if got != fresh:
+                run.fail({"history": [{"op": x["op"], "reader": x["reader"] is not None} for x in order[:c + 1]], "file_hex": bad.hex(),
+                          "after_history": got, "fresh": fresh, "tags": ["lenient-header"]},
+                         "the result of a call after a history differs from the same call made first in a fresh interpreter", kind="oracle")
+                break
+
+
 def run(tier, seed):
     run = Run("C17", tier, seed)
     run.rule = ("histories of 6-14 public calls (parse, canonical form, fingerprint, schemaless write/read, validate, container "
@@ -336,6 +401,7 @@ def run(tier, seed):
                     case["changed"], case["table_writes"] = changed, sorted(allowed)
                     run.fail(case, "correspondence: module-level state changed that the effect table does not list as written",
                              kind="correspondence")
+        directed_histories(run, tier, seed, pristine)
         # ---- the same schema *object* handed to consecutive calls and modified in place in between: the
         # result must be that of the object's current content (i.e. of a copy of it in a fresh interpreter)
         from fastavro.utils import generate_one
